@@ -17,7 +17,7 @@ def t1_lemmas(tier, sizes=None):
                             splits=[{"T": T - 4, "nops": 1}], split_depth=(3 if T >= 9 else (2 if T >= 8 else 0)),
                             desc="walk every well-formed single-root tape of exactly T words (all shapes incl. NOP runs, "
                                  "symbolic scalar tags/payloads/string bytes) with %s and compare with the abstract document" % mode,
-                            bound="tape = %d words, nesting <= 3, strings 1 byte, all shapes" % T,
+                            bound="tape = %d words, nesting <= 3, string values of 0 or 1 byte, all shapes" % T,
                             expect_reach=["T1.flat" if mode == "AdvanceInto" else "T1.walk"]))
     return ls
 
@@ -29,4 +29,7 @@ def run(ctx):
     lemma_sets_e1.string_lemmas(ctx, "quick")      # the deeper runs (3 decoder iterations) are C04's thorough tier
     ctx.assume("tapes are produced by the shape generator harness/zz_verif_tape.go (complete for the README tape grammar "
                "within the size bound; NOP runs as written by DeleteElems/SetNull)")
-    run_lemmas(ctx, multi_root_lemmas(ctx.tier) + t1_lemmas(ctx.tier))
+    # typed accessors on every payload (T2, shared with C12)
+    from . import C12
+    t2 = [l for l in C12.lemmas(ctx.tier) if l.name.startswith("T2.")]
+    run_lemmas(ctx, multi_root_lemmas(ctx.tier) + t1_lemmas(ctx.tier) + t2)
